@@ -75,8 +75,15 @@ class EncEngine:
 
     def matching_known(self, sk):
         out = []
+        # skeletons derived from another property's family keep that family's open findings
+        names = {sk.name}
+        base = re.sub(r"^(c11\.pair\.|c16\.base\.|c06\.ctx\d+\.)", "", sk.name)
+        base = re.sub(r"\.vs_\w+$", "", base)
+        names.add(base)
+        if sk.name.startswith("c04.mem."):
+            names.add("c02." + sk.name[8:])
         for k in self.known:
-            if any(fnmatch.fnmatch(sk.name, pat) for pat in k["family"]):
+            if any(fnmatch.fnmatch(nm, pat) for pat in k["family"] for nm in names):
                 if k.get("requires") and not all(r in sk.meta.get("vars", sk_vars(sk)) for r in k["requires"]):
                     continue
                 out.append(k)
